@@ -56,6 +56,13 @@ fn case<S: Shape>(r: &mut Rng, acc: &mut Acc, index: u64) {
             // ... or as the previous one (a disagreeing head followed by an agreeing tail)
             s.cycle = specs[ci - 1].cycle;
         }
+        if r.chance(1, 10) {
+            // a component whose whole active span vanishes next to its delay in f32 (delay + cycle x (n+1) == delay):
+            // it still shows its 0 % / start values while waiting and its terminal values afterwards
+            s.delay = *r.pick(&[1.0f32, 3.0, 0.5]);
+            s.cycle = *r.pick(&[1.0e-9f32, 1.0e-12, 3.0e-10]);
+            s.repeat = *r.pick(&[Rep::None, Rep::Times(1), Rep::Times(3)]);
+        }
         if disjoint {
             for k in s.kfs.iter_mut() {
                 for f in 0..S::N_ANIM {
